@@ -8,6 +8,7 @@ import (
 	"bytes"
 	"fmt"
 	"io"
+	"sort"
 	"testing"
 
 	"pgregory.net/rapid"
@@ -142,7 +143,11 @@ func vfC07Run(c vfSerCase, ctx *vfCtx) *vfViolation {
 			return vfFail("hnsw: reloaded graph differs: entry point %d vs %d, max level %d vs %d, %d vs %d vertices", a.Entry, b.Entry, a.MaxLevel, b.MaxLevel, len(a.Adj0), len(b.Adj0))
 		}
 		for id, adj := range a.Adj0 {
-			if fmt.Sprint(adj) != fmt.Sprint(b.Adj0[id]) || a.Level[id] != b.Level[id] {
+			// as sets: the order inside a neighbour list is not observable through searches' id sets
+			sa, sb := append([]uint32{}, adj...), append([]uint32{}, b.Adj0[id]...)
+			sort.Slice(sa, func(i, j int) bool { return sa[i] < sa[j] })
+			sort.Slice(sb, func(i, j int) bool { return sb[i] < sb[j] })
+			if fmt.Sprint(sa) != fmt.Sprint(sb) || a.Level[id] != b.Level[id] {
 				return vfFail("hnsw: reloaded vertex %d differs: level %d vs %d, layer-0 edges %v vs %v", id, a.Level[id], b.Level[id], adj, b.Adj0[id])
 			}
 		}
